@@ -505,6 +505,100 @@ theorem reject_signed_positive (s : List Char) (hx : '+' ∈ s) : (parseUnitsCor
   reject_foreign_char s '+' hx (by decide) (by decide) (by decide) (by decide)
     (fun w hw hc => (symbols_alphabet w hw '+' hc).1 rfl)
 
+/-! ### The same rejection classes on the RAW text
+
+`stripBlank s0` is the raw text after Python's `strip()`.  The replace chain only turns some `u` into `µ`
+(`prepUnits_uq`), so every shape below carries over to the preprocessed text. -/
+
+theorem sep_exp_not_u : ∀ c ∈ sepChars ++ expChars, c ≠ 'u' ∧ c ≠ 'µ' := by decide
+
+theorem uq_split2 {s t a r : List Char} {x y : Char} (h : s.map uq = t.map uq) (ht : t = a ++ x :: y :: r) :
+    ∃ a' x' y' r', s = a' ++ x' :: y' :: r' ∧ uq x' = uq x ∧ uq y' = uq y := by
+  obtain ⟨a', x', r1, hs, _, hx, hr⟩ := uq_split h ht
+  rw [List.map_cons] at hr
+  obtain ⟨y', r', hl, hy, _⟩ := List.map_eq_cons_iff.1 hr
+  exact ⟨a', x', y', r', by rw [hs, hl], hx, hy⟩
+
+theorem raw_reject_doubled_separator (s0 a r : List Char) (c1 c2 : Char) (h : stripBlank s0 = a ++ c1 :: c2 :: r)
+    (h1 : c1 ∈ sepChars) (h2 : c2 ∈ sepChars) : (parseUnitsChars s0).isError = true := by
+  obtain ⟨a', x', y', r', hs, hx, hy⟩ := uq_split2 (prepUnits_uq s0) h
+  have e1 := uq_eq hx (sep_exp_not_u c1 (by simp [h1]))
+  have e2 := uq_eq hy (sep_exp_not_u c2 (by simp [h2]))
+  subst e1 e2
+  rw [parseUnitsChars, hs]
+  exact reject_doubled_separator a' r' x' y' h1 h2
+
+theorem raw_reject_dangling_separator (s0 a : List Char) (c : Char) (hc : c ∈ sepChars)
+    (h : stripBlank s0 = c :: a ∨ stripBlank s0 = a ++ [c]) : (parseUnitsChars s0).isError = true := by
+  rcases h with h | h
+  · obtain ⟨a', x', r', hs, ha, hx, _⟩ := uq_split (a := []) (prepUnits_uq s0) (by simpa using h)
+    have e1 := uq_eq hx (sep_exp_not_u c (by simp [hc]))
+    subst e1
+    have : a' = [] := by simpa using ha
+    subst this
+    rw [parseUnitsChars, hs]
+    exact (reject_dangling_separator r' x' hc).1
+  · obtain ⟨a', x', r', hs, _, hx, hr⟩ := uq_split (prepUnits_uq s0) h
+    have e1 := uq_eq hx (sep_exp_not_u c (by simp [hc]))
+    subst e1
+    have : r' = [] := by simpa using hr
+    subst this
+    rw [parseUnitsChars, hs]
+    exact (reject_dangling_separator a' x' hc).2
+
+theorem raw_reject_exponent_first (s0 a r : List Char) (c d : Char) (hc : c ∈ sepChars) (hd : d ∈ expChars)
+    (h : stripBlank s0 = d :: r ∨ stripBlank s0 = a ++ c :: d :: r) : (parseUnitsChars s0).isError = true := by
+  rcases h with h | h
+  · obtain ⟨a', x', r', hs, ha, hx, _⟩ := uq_split (a := []) (prepUnits_uq s0) (by simpa using h)
+    have e1 := uq_eq hx (sep_exp_not_u d (by simp [hd]))
+    subst e1
+    have : a' = [] := by simpa using ha
+    subst this
+    rw [parseUnitsChars, hs]
+    exact (reject_exponent_first [] r' c x' hc hd).1
+  · obtain ⟨a', x', y', r', hs, hx, hy⟩ := uq_split2 (prepUnits_uq s0) h
+    have e1 := uq_eq hx (sep_exp_not_u c (by simp [hc]))
+    have e2 := uq_eq hy (sep_exp_not_u d (by simp [hd]))
+    subst e1 e2
+    rw [parseUnitsChars, hs]
+    exact (reject_exponent_first a' r' x' y' hc hd).2
+
+theorem raw_reject_fractional_exponent (s0 a r : List Char) (d : Char) (hd : d ∈ expChars)
+    (h : stripBlank s0 = a ++ '.' :: d :: r) : (parseUnitsChars s0).isError = true :=
+  raw_reject_exponent_first s0 a r '.' d (by decide) hd (Or.inr h)
+
+theorem raw_reject_text_after_exponent (s0 a r : List Char) (d y : Char) (hd : d ∈ expChars)
+    (hy : y ∉ sepChars) (hy1 : y.isDigit = false) (hy2 : y ≠ '_') (h : stripBlank s0 = a ++ d :: y :: r) :
+    (parseUnitsChars s0).isError = true := by
+  obtain ⟨a', x', y', r', hs, hx, hyy⟩ := uq_split2 (prepUnits_uq s0) h
+  have e1 := uq_eq hx (sep_exp_not_u d (by simp [hd]))
+  subst e1
+  rw [parseUnitsChars, hs]
+  rcases uq_cases hyy with e | ⟨hy', _⟩
+  · subst e; exact reject_text_after_exponent a' r' x' y' hd hy hy1 hy2
+  · rcases hy' with e | e <;> subst e <;>
+      exact reject_text_after_exponent a' r' x' _ hd (by decide) (by decide) (by decide)
+
+theorem raw_reject_foreign_char (s0 : List Char) (x : Char) (hx : x ∈ stripBlank s0) (hsep : x ∉ sepChars)
+    (hexp : x ∉ expChars) (hd : x.isDigit = false) (hu : x ≠ '_') (hsym : ∀ w ∈ allSyms, x ∉ w.toList) :
+    (parseUnitsChars s0).isError = true := by
+  obtain ⟨a, r, ht⟩ := List.append_of_mem hx
+  obtain ⟨a', x', r', hs, _, hxx, _⟩ := uq_split (prepUnits_uq s0) ht
+  have hnu : x ≠ 'u' ∧ x ≠ 'µ' :=
+    ⟨fun h => hsym "molecule" (by decide) (by rw [h]; decide), fun h => hsym "µm" (by decide) (by rw [h]; decide)⟩
+  have e := uq_eq hxx hnu
+  subst e
+  rw [parseUnitsChars]
+  exact reject_foreign_char _ x' (by rw [hs]; simp) hsep hexp hd hu hsym
+
+theorem raw_reject_signed_positive (s0 : List Char) (hx : '+' ∈ stripBlank s0) :
+    (parseUnitsChars s0).isError = true :=
+  raw_reject_foreign_char s0 '+' hx (by decide) (by decide) (by decide) (by decide)
+    (fun w hw hc => (symbols_alphabet w hw '+' hc).1 rfl)
+
+example : (parseUnitsChars " mol//um.s ".toList).isError = true ∧ (parseUnitsChars "mol.um+1.s-2".toList).isError = true ∧
+    (parseUnitsChars "mol.um-1.5.s-2".toList).isError = true := by decide +kernel
+
 /-! ### quantity text -/
 
 /-- non-numeric value, and value not separated from its unit (`"2m"`: the first blank-delimited token
